@@ -60,6 +60,15 @@ def run_case(Env, case):
     except Exception as ex:
         return {'fmt': f'E:{type(ex).__name__}', 'at': []}
     out = {}
+    # the encodings must not depend on what the object was used for before: on every other case the
+    # IEnvGen (interpolation) encoding and an evaluation are requested first (cached formats)
+    import zlib
+    if zlib.crc32(repr(case).encode()) % 2 == 0:
+        for pre in (lambda: e._interpolation_format(), lambda: e._at(0.25)):
+            try:
+                pre()
+            except Exception:
+                pass
     try:
         data = e._envgen_format()
         if len(data) != 1:
